@@ -14,6 +14,8 @@ WK2  flags | DeclarationFlag::Main   ->   walk_with_main_flag(flags)      opaque
 WK3  match S.as_str() { "lit" => A, _ => B }   ->   if walk_str_is(S.as_str(), "lit") { A } else { B }
      trusted wrapper whose body is `s == lit` (string-literal patterns are outside the Verus dialect; its result is unconstrained:
      the scope discipline does not depend on it).
+WK4  X.depth.clone()   ->   walk_clone_depth(&X.depth)     trusted wrapper whose body is `d.clone()` (Option<Result<u32, Poison>>: the
+     derived / std Clone of Option and Result over the identity Clone of u32 and Poison; vstd gives Option::clone no usable spec).
 """
 import re
 from vlib.rsparse import LostAnchor, tokenize, match_brackets
@@ -59,3 +61,9 @@ def wk3_str_match(u, key, text):
         u.rules['WK3-string-literal-match'] += 1
         return 'if walk_str_is(%s, %s) { %s } else { %s }' % (m.group(1), m.group(2), m.group(3).strip(), m.group(4).strip())
     return pat.sub(f, text)
+
+
+def wk4_clone_depth(u, key, text):
+    text, n = re.subn(r'\b([A-Za-z_]\w*)\.depth\.clone\(\)', r'walk_clone_depth(&\1.depth)', text)
+    u.rules['WK4-clone-depth'] += n
+    return text
